@@ -32,7 +32,7 @@ func init() { core.Register(c03{}) }
 
 func (c03) ID() string { return "C03" }
 func (c03) Rule() string {
-	return "plans: a signer chain (self-signed leaf, or leaf + 0-2 intermediates + root) and unrelated certificates; statements that may also list a store name in another letter case (another, unloadable store) or names that walk into other directories; a history of <= 10 operator operations on the real on-disk layout truststore/x509/<type>/<name>/ (put root / intermediate / leaf / unrelated certificate into a named store of any of the three types, remove it, empty a store, replace it by a symlink, drop garbage into it) interleaved with <= 8 verifications of notary.x509 and signing-authority signatures (JWS, COSE) under documents of 1-3 statements whose trust-store lists contain duplicates, several types, and stores named only by other statements; EIO / EACCES injected into the store loads of a verification. non-trivial: a verification took place while a chain certificate was in some store, or a listed store was broken; distinct: hash of (operations, statement lists, scheme, verdicts, store calls)"
+	return "plans: a signer chain (self-signed leaf, or leaf + 0-2 intermediates + root) and unrelated certificates; statements that may also list a store name in another letter case (another, unloadable store) or names that walk into other directories; a history of <= 10 operator operations on the real on-disk layout truststore/x509/<type>/<name>/ (put root / intermediate / leaf / unrelated certificate into a named store of any of the three types, remove it, empty a store, replace it by a symlink, drop garbage or a zero-byte file into it) interleaved with <= 8 verifications of notary.x509 and signing-authority signatures (JWS, COSE) under documents of 1-3 statements whose trust-store lists contain duplicates, several types, and stores named only by other statements; EIO / EACCES injected into the store loads of a verification. non-trivial: a verification took place while a chain certificate was in some store, or a listed store was broken; distinct: hash of (operations, statement lists, scheme, verdicts, store calls)"
 }
 func (c03) Components() map[string]string {
 	return map[string]string{
